@@ -189,6 +189,23 @@ Lemma witness_optional_mismatch :
   C39_known (mkC39 (Ev V2 LE tce_default w6_t1 w6_t2 (VData w6_x)) (OAs (Ok true))) = 6%N.
 Proof. split; [reflexivity|]. split; [|reflexivity]. repeat split; try reflexivity. eexists. split; reflexivity. Qed.
 
+(* class 7: the typed sample of a reader whose type was extended (derive types A2 := A1) *)
+Definition w7_t1 : adesc := mkAD Appendable 2 [am 0 0 (APrim PI32); am 1 1 (APrim PI32)].
+Definition w7_t2 : adesc := mkAD Appendable 1 [am 0 0 (APrim PI32)].
+Definition w7_x : dyn := [(0, VP KI32 5)].
+Lemma witness_typed_none :
+  struct_assignable tce_default (cto_of w7_t1) (cto_of w7_t2) = Ok true /\
+  flat_desc w7_t1 = true /\ flat_desc w7_t2 = true /\ evolves tce_default w7_t1 w7_t2 = true /\
+  (exists bs, encode V2 LE (ty_of w7_t2) (VData w7_x) = Ok bs /\
+              decode (ty_of w7_t1) bs = Ok (VData [(0, VP KI32 5)]) /\
+              projects w7_t1 w7_x [(0, VP KI32 5)] = true /\
+              typed_sample w7_t1 [(0, VP KI32 5)] = None) /\
+  (* with try_construct = USE_DEFAULT on the new member the sample is delivered with the default *)
+  typed_sample (mkAD Appendable 3 [am 0 0 (APrim PI32); mkAM (mi 1) 1 true (APrim PI32)]) [(0, VP KI32 5)]
+    = Some [(0, VP KI32 5); (1, VP KI32 0)] /\
+  C39_known (mkC39 (Ty V2 LE tce_default w7_t1 w7_t2 (VData w7_x)) (OAs (Ok true))) = 7%N.
+Proof. repeat split; try reflexivity. eexists. repeat split; reflexivity. Qed.
+
 (* the DESIGN.md candidate D35 (integer widening) is NOT present in this tree *)
 Lemma no_integer_widening :
   struct_assignable tce_default (mkST 1 1 [mkSM 0 1 0 TkInt32]) (mkST 1 1 [mkSM 0 1 0 TkInt64]) = Ok false /\
